@@ -53,6 +53,7 @@ def run_variant(prop, repo):
 def alpha_rename(src, relpath):
     """behaviour-preserving: ast round trip (drops comments/formatting) of one module"""
     import ast
+    import copy
     return ast.unparse(ast.parse(src)).encode("utf-8")
 
 
@@ -106,6 +107,7 @@ def expand_augassign(tree):
     """behaviour-preserving: x op= y  ->  x = x op y (targets without side effects in the repo), plus a debug print at every function start"""
     import ast
     import copy
+    import copy
     tree = copy.deepcopy(tree)
 
     class Tr(ast.NodeTransformer):
@@ -145,6 +147,7 @@ def run(prop, repo, seed):
     """all variants are described first (label, expectation, thunk), then evaluated in parallel in forked workers (the thunks close over
     the parsed tree; nothing is pickled but the small results), then judged"""
     import ast
+    import copy
     import json
     import os
     import shutil
@@ -171,6 +174,33 @@ def run(prop, repo, seed):
             continue
         n_applied += 1
         add(dict(variant=name, kind="breaking"), "violation", (lambda v=v: run_variant(prop, v)))
+    # a rule whose expected count is zero on this tree needs a positive example on every run: one of the methods this property's
+    # obligations read is made to keep its result on the object and hand it out again on later calls
+    code0, ctx0, _ = core.run_property(prop, "quick", repo)
+    cands = []
+    for qn in sorted(ctx0.functions_analysed if ctx0 is not None else []):
+        fq = repo.functions.get(qn)
+        if fq is None or fq.cls is None or fq.is_static or fq.name.startswith("__") or not fq.params or fq.params[0] != "self":
+            continue
+        last = fq.node.body[-1]
+        if isinstance(last, ast.Return) and last.value is not None and not (isinstance(last.value, ast.Constant) and last.value.value is None):
+            cands.append(fq)
+    if cands:
+        fq = cands[0]
+        tree = copy.deepcopy(fq.module.tree)
+        for n in ast.walk(tree):
+            if isinstance(n, (ast.FunctionDef, ast.AsyncFunctionDef)) and n.name == fq.name and n.lineno == fq.node.lineno:
+                guard = ast.parse("if getattr(self, '_kept_result', None) is not None:\n    return self._kept_result").body[0]
+                keep = ast.parse("self._kept_result = 0").body[0]
+                keep.value = n.body[-1].value
+                n.body[-1].value = ast.parse("self._kept_result").body[0].value
+                at = 1 if (isinstance(n.body[0], ast.Expr) and isinstance(n.body[0].value, ast.Constant) and isinstance(n.body[0].value.value, str)) else 0
+                n.body[at:at] = [guard]
+                n.body.insert(len(n.body) - 1, keep)
+        ast.fix_missing_locations(tree)
+        n_applied += 1
+        add(dict(variant=f"{fq.qualname} keeps its result on the object and returns it on later calls", kind="breaking"), "violation",
+            (lambda t=tree, r=fq.module.relpath: run_variant(prop, repo.variant(r, ast.unparse(t).encode("utf-8")))))
     for relpath in files:
         m = [x for x in repo.modules.values() if x.relpath == relpath]
         if not m:
